@@ -22,6 +22,7 @@ A Suite gives
 """
 import fcntl
 import hashlib
+import itertools
 import json
 import os
 import random
@@ -354,6 +355,19 @@ class Check:
         return broken
 
     # ---- S2 + S3 ------------------------------------------------------------------------------
+    BATCH = 400
+
+    def _stream(self, suite, drv, case_iter):
+        while True:
+            cases = list(itertools.islice(case_iter, self.BATCH))
+            if not cases:
+                return
+            reals = [safe_real(suite, c) for c in cases]
+            models = [None] * len(cases)
+            if suite.corr and self.driver_ok:
+                models = drv.run(suite.driver_suite or suite.name, [suite.driver_case(c) for c in cases])
+            yield from zip(cases, reals, models)
+
     def run_suites(self, broken):
         cov = self.ev["coverage"]
         cov["suites"] = {}
@@ -369,12 +383,9 @@ class Check:
             st = {"cases": 0, "model_agree": 0, "model_differ": 0, "oracle_fail": 0, "nontrivial": 0,
                   "harness_exc": 0}
             t1 = time.time()
-            cases = list(suite.corpus()) + list(suite.gen(srng, self.tier))
-            reals = [safe_real(suite, c) for c in cases]
-            models = [None] * len(cases)
-            if suite.corr and self.driver_ok:
-                models = drv.run(suite.driver_suite or suite.name, [suite.driver_case(c) for c in cases])
-            for c, r, m in zip(cases, reals, models):
+            # cases are streamed in batches (generate -> real code -> Lean driver -> compare -> drop) so that a thorough
+            # run's memory does not grow with the number of cases
+            for c, r, m in self._stream(suite, drv, itertools.chain(suite.corpus(), suite.gen(srng, self.tier))):
                 st["cases"] += 1
                 total += 1
                 if isinstance(r, dict) and "harness_exc" in r:
